@@ -5,6 +5,7 @@
 -- (`gen_fill_zero_roots_eq`: the same vector when the regenerated no-panic condition holds, a panic of the model
 -- when it fails).
 import WinterProofs.Lemmas.C20Gen
+import WinterProofs.Lemmas.C20GenWrap
 
 namespace C20G
 open Model.Poly
@@ -166,5 +167,17 @@ theorem gen_fill_zero_roots_eq (xs result : List α) (hr : result.length < 18446
         (fillStep O xs.length)) _ = _
       rw [hm]
       rfl
+
+/-- ★ `poly_from_roots` (regenerated) IS the model's `polyFromRoots`, for every list of roots whose length + 1 a
+    `usize` holds: the same coefficients when the regenerated no-panic condition holds, a panic of the model otherwise -/
+theorem gen_poly_from_roots_eq (xs : List α) (hlen : xs.length + 1 < 18446744073709551616) :
+    (Gen.Polynom.poly_from_roots_ok O.toX xs = true →
+      polyFromRoots O xs = .ok (Gen.Polynom.poly_from_roots O.toX xs)) ∧
+    (Gen.Polynom.poly_from_roots_ok O.toX xs = false → ∃ msg, polyFromRoots O xs = .panic msg) := by
+  obtain ⟨w1, w2⟩ := gen_poly_from_roots_wrapper O.toX xs
+  obtain ⟨f1, f2⟩ := gen_fill_zero_roots_eq O xs (List.replicate (xs.length + 1) (O.toX.ofNat 0)) (by simpa using hlen)
+  rw [w1, w2, model_poly_from_roots_wrapper]
+  simp only [hlen, decide_true, Bool.true_and]
+  exact ⟨f1, f2⟩
 
 end C20G
